@@ -422,6 +422,74 @@ def r09j(F):
 	out.append(Result('09.j', okc, ('ok:' if okc else 'shape:') + 'holder-pending-init', 'MonitorHolder.pending_monitor_updates is initialised from the vector filled above (%s)' % (txt[:60] if 'txt' in dir() else '-'), 1, where=F.where(fn)))
 	return out
 
+SELF_BLOCKING = {
+	CC + 'force_shutdown': 'closes the channel: its update is numbered after the last unblocked id and all held updates are dropped with the channel',
+	FC + 'build_commitment_no_status_check': 'returns the update to its callers, each of which either pushes it through push_ret_blockable_mon_update or merges it into an update that is',
+	FC + 'get_update_fulfill_htlc': 'preimage updates deliberately jump the queue; get_update_fulfill_htlc_and_commit renumbers the held updates behind it',
+	FC + 'revoke_and_ack': 'routes its update itself: held (pushed to blocked_monitor_updates) when blocked updates exist or the RAA blocker says so',
+}
+
+def r09k(F):
+	"""held monitor updates keep the id order: every new update of a live channel queues behind held ones, and all held ones are renumbered together"""
+	out = []
+	ctors = sorted({root_fn(fn) for (a, v), lst in F.constructs.items() if a == 'lightning::chain::channelmonitor::ChannelMonitorUpdate' for fn, line in lst if root_fn(fn).startswith(CH)})
+	if len(ctors) < 8:
+		out.append(Result('09.k', False, 'floor:update-constructors', 'only %d ChannelMonitorUpdate constructors found in ln::channel' % len(ctors), len(ctors)))
+	allowed_self = {F.fn(k) for k in SELF_BLOCKING if F.has_fn(k)}
+	push = F.fn(FC + 'push_ret_blockable_mon_update')
+	for c in ctors:
+		if c.endswith('::read') or c.endswith('::clone'):
+			continue
+		fu = F.func(c)
+		pb = set(sites_call(fu, [push]))
+		cb = {b for b, s in sites_construct(fu, 'ChannelMonitorUpdate', 'ChannelMonitorUpdate')}
+		if c in allowed_self:
+			out.append(Result('09.k', True, 'ok:self-blocking@' + c.rsplit('::', 1)[-1], '%s builds an update without push_ret_blockable_mon_update (reviewed: %s)' % (c.rsplit('::', 1)[-1], [v for k, v in SELF_BLOCKING.items() if F.has_fn(k) and F.fn(k) == c][0][:120]), len(cb)))
+			continue
+		if not pb:
+			out.append(Result('09.k', False, 'unqueued:' + c.rsplit('::', 1)[-1], '%s builds a ChannelMonitorUpdate that is not passed through push_ret_blockable_mon_update: it would reach the Watch ahead of held updates with lower ids' % c, len(cb), where=F.where(c, fu.line_of(sorted(cb)[0]))))
+			continue
+		# the freshly built update never flows into the return value directly: only what push_ret_blockable_mon_update hands back does
+		taint = set()
+		for b, si in sites_construct(fu, 'ChannelMonitorUpdate', 'ChannelMonitorUpdate'):
+			taint.add(fu.blocks[b]['s'][si][1][0])
+		leak = None
+		for _ in range(6):
+			for bi, si, st in fu.stmts():
+				rv = st[2]
+				ops = []
+				if rv[0] == 'use':
+					ops = [rv[1]]
+				elif rv[0] == 'agg':
+					ops = rv[4]
+				if any(o[0] in ('c', 'm') and o[1][0] in taint and len(o[1]) == 1 for o in ops):
+					d = st[1][0]
+					if d == 0:
+						leak = st[0]
+					elif len(st[1]) == 1:
+						taint.add(d)
+		out.append(Result('09.k', leak is None, ('ok:' if leak is None else 'unqueued:') + 'queued@' + c.rsplit('::', 1)[-1], '%s: the update it builds reaches the caller only through push_ret_blockable_mon_update' % c.rsplit('::', 1)[-1] if leak is None else '%s returns the freshly built update directly (line %s), bypassing the queue of held updates' % (c, leak), len(cb) + len(pb), where=F.where(c, leak)))
+	# renumbering: when a preimage update jumps the queue every held update is bumped - the store sits in a loop over iter_mut() of the held list
+	fn = FC + 'get_update_fulfill_htlc_and_commit'
+	fu = F.func(fn)
+	ex = Expr(fu)
+	bumps = []
+	for bi, si, s in fu.stmts():
+		fl = place_fields(s[1])
+		if fl and fl[-1] == 'update_id' and len(fl) >= 2 and fl[-2] == 'update' and s[2][0] == 'bin' and s[2][1].startswith('Add'):
+			base = ex.of_place(s[1])
+			bumps.append((bi, base))
+		elif fl and fl[-1] == 'update_id' and s[2][0] == 'use':
+			e = ex.of_rvalue(s[2])
+			if e[0] == 'field' and e[2] == '0' and e[1][0] == 'bin' and e[1][1].startswith('Add') and 'blocked_monitor_updates' in expr_str(ex.of_place(s[1])):
+				bumps.append((bi, ex.of_place(s[1])))
+	okb = False
+	for bi, base in bumps:
+		lv = expr_leaves(base)
+		okb = okb or ('blocked_monitor_updates' in lv['fields'] and any(c.endswith('iter_mut') for c in lv['calls']) and any(c.endswith('::next') for c in lv['calls']))
+	out.append(Result('09.k', okb, ('ok:' if okb else 'shape:') + 'renumber-all-held', 'the `update_id += 1` renumbering applies to every element of blocked_monitor_updates (loop over iter_mut()): %s' % [expr_str(b)[:90] for _, b in bumps], len(bumps), where=F.where(fn)))
+	return out
+
 RULES = [
 	('09.a', 'monitor update ids advance by +1 at frozen sites; blocked updates form a FIFO', r09a),
 	('09.b', 'every ChannelMonitorUpdate is built with the channel\'s current update id', r09b),
@@ -432,5 +500,6 @@ RULES = [
 	('09.g', 'Watch::update_channel only after in-flight registration; removed from in-flight only on Completed', r09g),
 	('09.h', 'ChainMonitor: Completed event only when nothing is pending; update applied before persisting; InProgress recorded', r09h),
 	('09.i', 'completion actions run only from the frozen completion sites', r09i),
+	('09.k', 'every new update of a live channel queues behind held updates; held updates are renumbered together', r09k),
 	('09.j', 'held state accumulates across pauses; renumbering uses the first blocked id; an InProgress initial persist is tracked', r09j),
 ]
